@@ -73,7 +73,17 @@ class C09(Property):
                         if not (argv[ix].startswith(b"W") and argv[ix].endswith(b"q")):
                             # a name-looking / command-looking item that ended up right of `--`: opaque data too
                             a2 = list(argv)
-                            a2[ix] = b"Z%dq" % ix
+                            # other data of the same lexical kind (what a typed positional can tell apart is the CONTENT of a
+                            # word -- digits, valid UTF-8 -- never whether it looks like an option)
+                            old = argv[ix]
+                            if not common.is_utf8(old):
+                                a2[ix] = b"Z\xff%dq" % ix
+                            elif old.isdigit():
+                                a2[ix] = b"7" * len(old)
+                            elif old[:1] in (b"-", b"+") and old[1:].isdigit():
+                                a2[ix] = old[:1] + b"7" * (len(old) - 1)
+                            else:
+                                a2[ix] = b"Z%dq" % ix
                             cases.append(Case("%ss%d" % (gid, j), opts, a2,
                                               tags={"role": "subst", "group": gid, "old": argv[ix], "new": a2[ix], "classonly": True}))
                             j += 1
